@@ -46,7 +46,10 @@ PNG_COL = [({}, '#000', '#fff'), (dict(dark='darkblue'), 'darkblue', '#fff'), (d
            (dict(light=(255, 255, 255, 0)), '#000', (255, 255, 255, 0)), (dict(dark=(0, 0, 0, 0.0), light='#fff'), (0, 0, 0, 0.0), '#fff'),
            (dict(dark=(10, 20, 30, 0), light=(200, 210, 220)), (10, 20, 30, 0), (200, 210, 220)), (dict(light='#ffffff00'), '#000', '#ffffff00'),
            (dict(dark='#fff', light='white'), '#fff', '#fff'), (dict(dark='black', light='#000'), '#000', '#000'), (dict(dark='red', light='#f00'), 'red', 'red'),
-           (dict(dark='#eee', light=(238, 238, 238)), '#eee', '#eee')]
+           (dict(dark='#eee', light=(238, 238, 238)), '#eee', '#eee'),
+           # the ends of the alpha range on a colour that is not black / white: int 255 and float 1.0 (opaque), int 1 (1/255)
+           (dict(dark=(10, 20, 30, 255)), (10, 20, 30, 255), '#fff'), (dict(dark=(10, 20, 30, 1.0), light=(200, 210, 220, 1.0)), (10, 20, 30, 1.0), (200, 210, 220, 1.0)),
+           (dict(light=(200, 210, 220, 255)), '#000', (200, 210, 220, 255)), (dict(dark=(10, 20, 30, 1)), (10, 20, 30, 1), '#fff')]
 GREY_ALIASES = [('gray', 'grey'), ('darkgray', 'darkgrey'), ('dimgray', 'dimgrey'), ('lightgray', 'lightgrey'), ('slategray', 'slategrey'),
                 ('darkslategray', 'darkslategrey'), ('lightslategray', 'lightslategrey'), ('aqua', 'cyan'), ('fuchsia', 'magenta')]
 COLORS = {
@@ -65,7 +68,9 @@ COLORS = {
             (dict(dark=(0, 0, 0, 0.5), light=None), (0, 0, 0, 0.5), None), (dict(dark=(0, 0, 0, 128), light=(255, 255, 255, 64)), (0, 0, 0, 128), (255, 255, 255, 64)),
             (dict(dark='#fff8', light='#0008'), '#ffffff88', '#00000088'),
             (dict(light=(255, 255, 255, 0)), '#000', (255, 255, 255, 0)), (dict(dark=(0, 0, 0, 0.0)), (0, 0, 0, 0.0), '#fff'),
-            (dict(dark='red', light='#f00'), 'red', 'red'), (dict(dark='black', light='#000'), '#000', '#000')],
+            (dict(dark='red', light='#f00'), 'red', 'red'), (dict(dark='black', light='#000'), '#000', '#000'),
+            (dict(dark=(10, 20, 30, 255)), (10, 20, 30, 255), '#fff'), (dict(dark=(10, 20, 30, 1.0), light=(200, 210, 220, 1.0)), (10, 20, 30, 1.0), (200, 210, 220, 1.0)),
+            (dict(dark=(10, 20, 30, 1)), (10, 20, 30, 1), '#fff')],
     'ppm': [({}, '#000', '#fff'), (dict(dark='red', light='tan'), 'red', 'tan'), (dict(dark='white', light='black'), 'white', 'black'),
             (dict(light='#eee'), '#000', '#eee'), (dict(dark='#333', light='yellow'), '#333', 'yellow')],
     'xbm': [({}, '#000', '#fff'), (dict(name='qr_code'), '#000', '#fff')],
